@@ -16,7 +16,7 @@ func init() {
 		Run:     runC07,
 		Explanation: "Static decision, in both offset-width builds, of the EC / sorted-index deletion structure: (1) STRIDE: in SearchNeedleFromSortedIndex the offset handed to the mutator callback is the offset of the entry that was read (same index value, same stride constant = NeedleMapEntrySize); " +
 			"(2) CODEC: MarkNeedleDeleted writes SizeSize bytes holding TombstoneFileSize at entry offset + NeedleIdSize + OffsetSize; (3) the three deleters (DeleteNeedleFromEcx, RebuildEcxFile, SortedFileNeedleMap.Delete) all mark through MarkNeedleDeleted; " +
-			"(4) the deletion journal is appended exactly on the found-and-marked path, at the end of the journal file, with one NeedleIdSize record; (5) the journal replay (RebuildEcxFile, WriteIdxFileFromEcIndex) consumes NeedleIdSize records and emits one tombstone index entry per key. Binary-search correctness and readability of other needles are not decided.",
+			"(4) the deletion journal is appended exactly on the found-and-marked path, at the end of the journal file, with one NeedleIdSize record; (5) the journal replay (RebuildEcxFile, WriteIdxFileFromEcIndex) consumes NeedleIdSize records and emits one tombstone index entry per key. Binary-search correctness and readability of other needles are not decided. Also decided: once the key matched and a mutator was given, every path runs it, whatever the entry size (an empty blob is live).",
 		Assumptions: []string{"the .ecx file is sorted by needle id (produced by the encoder)"},
 		Trusted:     baseTrusted,
 	})
